@@ -317,6 +317,12 @@ func c06(c *core.Ctx, r *core.Report) {
 					}
 					hf := handleFields(c)
 					okk := (val == hf.tearingOn && name == "teardown") || (val == hf.tearingOff && name == "Reset")
+					// the zero value spelled out in the literal that builds a new handle
+					if fa, isFA := st.Addr.(*ssa.FieldAddr); isFA && val == hf.tearingOff {
+						if _, isNew := fa.X.(*ssa.Alloc); isNew {
+							okk = true
+						}
+					}
 					if val == hf.tearingOn {
 						val = "true"
 					} else if val == hf.tearingOff {
